@@ -209,6 +209,12 @@ func c10Enumerate(tier string, yield func(any)) {
 			}
 		}
 	}
+	// the last entity's artifact is a symbolic link to a key kept in another directory (native filesystem only)
+	for hier := 0; hier < 4; hier++ {
+		for flags := 0; flags < 16; flags++ {
+			yield(&c10Case{Kind: "linked", Hier: hier, Toggles: []int{}, Flags: flags})
+		}
+	}
 	for hier := 0; hier < 4; hier++ {
 		for a := range c10Answers {
 			yield(&c10Case{Kind: "consent", Hier: hier, Toggles: []int{}, Answer: a})
@@ -268,6 +274,10 @@ func c10ToggleClass(c *c10Case) string {
 
 func c10Exec(x *engine.Ctx, cc any) {
 	c := cc.(*c10Case)
+	if c.Kind == "linked" {
+		c10Linked(x, c)
+		return
+	}
 	if c.Kind == "consent" {
 		c10Consent(x, c)
 		return
@@ -505,11 +515,51 @@ func c10Consent(x *engine.Ctx, c *c10Case) {
 	}
 }
 
+// c10Linked: the last entity's artifact is a symbolic link to a key kept elsewhere (command line only).
+func c10Linked(x *engine.Ctx, c *c10Case) {
+	c.Clock = 0
+	d, w := c10World(c)
+	last := d.Certs[len(d.Certs)-1]
+	w.Put("keystore/last.key", FixtureKeyPEM("P-224-1"))
+	w.Symlinks = map[string]string{ArtifactPath(last.Path): "keystore/last.key"}
+	x.Nontrivial(fmt.Sprintf("linked %d %v %d", c.Hier, c.Toggles, c.Flags))
+	strat := db.UpdateStrategy(c.Flags)
+	res, err := drive.RunCLI(w, strat, "y\n")
+	if err != nil {
+		x.Cap("cli: " + err.Error())
+		return
+	}
+	x.TraceValidated(1)
+	if res.Exit != 0 {
+		x.Outcome("linked: first run did not succeed (outside C10)")
+		return
+	}
+	for k := 2; k <= 3; k++ {
+		before := w.Clone()
+		res, err = drive.RunCLI(w, strat, "n\n")
+		if err != nil {
+			x.Cap("cli: " + err.Error())
+			return
+		}
+		x.TraceValidated(1)
+		x.Transition(1)
+		if strings.Contains(res.Stdout, "Proceed") || res.Exit != 0 {
+			x.Violation("C10/rerun-not-noop/cli linked-artifact", fmt.Sprintf("hierarchy=%d flags=%04b, %s is a link to keystore/last.key: run %d right after a successful run wants to replace something (exit %d): %s", c.Hier, c.Flags, ArtifactPath(last.Path), k, res.Exit, short(res.Stdout, 300)))
+			return
+		}
+		if df := simfs.Diff(before, w); len(df) != 0 {
+			x.Violation("C10/rerun-changed-files/cli linked-artifact", fmt.Sprintf("hierarchy=%d flags=%04b run %d: %v", c.Hier, c.Flags, k, df))
+			return
+		}
+	}
+	x.Outcome("linked artifact: re-runs are no-ops")
+}
+
 func init() {
 	register(&engine.Check{
 		ID:          "C10",
 		Level:       "model_checking",
-		Rule:        "4 hierarchies (root; root+sub; 3-tier chain; root+2 subs; keys on P-224, brainpoolP256r1, P-384, brainpoolP384t1 by position) x toggle sets of size <=2 (thorough <=4 and all seven) over {profile, relative validity, absolute validity (current, not yet valid and expired-by-design periods by position), manipulations (version, signature value, key algorithm and key bits of the last entity), imported key, CSR-based leaf, nested directories + explicit aliases; plus a world where two configurations share an artifact file and worlds where every entity carries seven extensions with mixed-case names} x 16 flag sets without generate-all x 3 clock modes (tick per write / one tick per run / the run shares the tick of the last edit before it), 5 foreign files present: run, then run again with the same flags - from the fresh directory and (for the <=1-toggle worlds; all in thorough) after four histories: settled + edit of the root's subject, of the last entity's subject, of its extensions plus touching every config, deletion of its artifact. Second run: empty plan, nothing generated, empty write log, directory identical including mtimes. First run: changed paths = artifact paths of exactly the reported entities, no other path changed or created. The same run;run on the built binary in a native directory for every flag set on the <=1-toggle worlds and a diagonal of the rest; consent: 9 stdin answers on 14 worlds with a pending replacement (the directory named as an absolute path; for y and n also relative, as ./dir/, as . from inside it, and through a symbolic link) (incl. replaced entities that hold a certificate but no private key: request-based, key stripped) (only `y` replaces, others leave the directory identical and exit 0, no prompt when nothing is replaced). states = worlds, transitions = runs, traces_validated = binary runs",
+		Rule:        "4 hierarchies (root; root+sub; 3-tier chain; root+2 subs; keys on P-224, brainpoolP256r1, P-384, brainpoolP384t1 by position) x toggle sets of size <=2 (thorough <=4 and all seven) over {profile, relative validity, absolute validity (current, not yet valid and expired-by-design periods by position), manipulations (version, signature value, key algorithm and key bits of the last entity), imported key, CSR-based leaf, nested directories + explicit aliases; plus a world where two configurations share an artifact file and worlds where every entity carries seven extensions with mixed-case names} x 16 flag sets without generate-all x 3 clock modes (tick per write / one tick per run / the run shares the tick of the last edit before it), 5 foreign files present: run, then run again with the same flags - from the fresh directory and (for the <=1-toggle worlds; all in thorough) after four histories: settled + edit of the root's subject, of the last entity's subject, of its extensions plus touching every config, deletion of its artifact. Second run: empty plan, nothing generated, empty write log, directory identical including mtimes. First run: changed paths = artifact paths of exactly the reported entities, no other path changed or created. The same run;run on the built binary in a native directory for every flag set on the <=1-toggle worlds and a diagonal of the rest; the binary on the 4 plain hierarchies x 16 flag sets with the last entity's artifact being a symbolic link (older than every file) to a key kept in another directory: run, then two more runs that must neither prompt nor change anything; consent: 9 stdin answers on 14 worlds with a pending replacement (the directory named as an absolute path; for y and n also relative, as ./dir/, as . from inside it, and through a symbolic link) (incl. replaced entities that hold a certificate but no private key: request-based, key stripped) (only `y` replaces, others leave the directory identical and exit 0, no prompt when nothing is replaced). states = worlds, transitions = runs, traces_validated = binary runs",
 		Bound:       map[string]string{"toggle set size": "quick<=2 thorough<=4 + all"},
 		Assumptions: []string{"answers `y` without newline and ` y ` are accepted by the code; the statement says `y`, so they are not demanded either way"},
 		Budget:      budgets(quickBudget, thoroughBudget),
